@@ -19,6 +19,9 @@ ENode(k, ns, n, text, p, q) ==
     [k |-> k, ns |-> ns, n |-> n, a |-> <<>>, text |-> text, tail |-> None, kids |-> <<>>, shadow |-> <<>>, par |-> 0, p |-> p, q |-> q]
 EInit == [nd |-> <<ENode("doc", "", <<>>, None, None, None)>>, exc |-> "", log |-> <<>>]
 
+\* base.TreeBuilder.reset(): self.document = self.documentClass() - a NEW Document wrapper (and ElementTree element) each time;
+\* nothing of the previous tree, finished or abandoned half way, is reachable from it
+EReset(e) == EInit
 EFail(e, name) == [e EXCEPT !.exc = name]
 EPar(e, n) == e.nd[n].par
 EHasContent(e, n) == Truthy(e.nd[n].text) \/ e.nd[n].kids # <<>>            \* bool(self._element.text or len(self._element))
